@@ -109,8 +109,8 @@ struct pair {
 
     constexpr auto operator=(pair&& p) noexcept
         -> pair& requires((is_move_assignable_v<first_type> and is_move_assignable_v<second_type>)) {
-            first  = etl::move(p.first);
-            second = etl::move(p.second);
+            first  = etl::forward<first_type>(p.first);
+            second = etl::forward<second_type>(p.second);
             return *this;
         }
 
@@ -118,8 +118,8 @@ struct pair {
         requires(is_assignable_v<first_type&, U1> and is_assignable_v<second_type&, U2>)
     constexpr auto operator=(pair<U1, U2>&& p) -> pair&
     {
-        first  = etl::move(p.first);
-        second = etl::move(p.second);
+        first  = etl::forward<U1>(p.first);
+        second = etl::forward<U2>(p.second);
         return *this;
     }
 
